@@ -23,17 +23,17 @@ Check C03_index : forall s pre it post,
   lex_all s = pre ++ it :: post -> item_index it = blen (concat (map item_data pre)).
 Print Assumptions C03_index.
 
-(* the stream ends with Eof (empty data, index = byte length) and Eof occurs nowhere else *)
+(* the stream ends with TkEof (empty data, index = byte length) and TkEof occurs nowhere else *)
 Theorem C03_eof : forall s,
-  exists pre, lex_all s = pre ++ [Tok Eof [] (blen s)] /\ existsb is_eof pre = false.
+  exists pre, lex_all s = pre ++ [ITok TkEof [] (blen s)] /\ existsb is_eof pre = false.
 Proof. exact lex_all_eof. Qed.
 Check C03_eof : forall s,
-  exists pre, lex_all s = pre ++ [Tok Eof [] (blen s)] /\ existsb is_eof pre = false.
+  exists pre, lex_all s = pre ++ [ITok TkEof [] (blen s)] /\ existsb is_eof pre = false.
 Print Assumptions C03_eof.
 
 (* non-vacuity: a concrete input with tokens, an error fragment and a multi-byte character *)
 Example C03_nonvacuous :
   lex_all [123; 97; 32; 233; 49; 46; 125] =
-  [Tok LCurly [123] 0; Tok Name [97] 1; Tok Whitespace [32] 2; Err ELex [233] 3;
-   Err ELex [49; 46; 125] 5; Tok Eof [] 8].
+  [ITok TkLCurly [123] 0; ITok TkName [97] 1; ITok TkWhitespace [32] 2; IErr ELex [233] 3;
+   IErr ELex [49; 46; 125] 5; ITok TkEof [] 8].
 Proof. vm_compute. reflexivity. Qed.
